@@ -1,6 +1,6 @@
 SPECIFICATION JSpec
 CONSTANT MaxGiven = 8
-CONSTANT AllInvalid = TRUE
+CONSTANT Combo = "all"
 INVARIANT TypeOK
 INVARIANT Report
 CHECK_DEADLOCK FALSE
